@@ -323,7 +323,9 @@ class C07(MiscProp):
             "bytes left in the stream after every operation are compared with RunMisc.run_hist given the same stream "
             "(order and number of draws), and directly: ephemeral public key = X25519 base point times the stream block, "
             "payload key recovered by the recipient = the stream block, 64/32/0 bytes consumed; the real CLI with "
-            "KESTREL_VERIF_RANDOM must produce exactly what the library produces with the stream blocks injected. "
+            "KESTREL_VERIF_RANDOM must produce exactly what the library produces with the stream blocks injected; "
+            "half-injected ephemeral pair (one of e / epk given): refused with the exact need on a short stream, and with "
+            "exactly enough stream the given half is ignored and the stream block used (model: run_hist). "
             "(b) production randomness (statistical observation): every operation repeated with IDENTICAL inputs "
             "(library: 260, thorough 2000 times per operation, all in ONE driver process, i.e. > 1500 consecutive draws from one "
             "generator state; real CLI: 20, thorough 200 processes per command): ephemeral keys, payload keys, salts, generated "
@@ -338,6 +340,7 @@ class C07(MiscProp):
     def run(self, ctx):
         self.parties = keypairs(ctx, 4)
         self.stream_histories(ctx)
+        self.t2_half_injected_short_stream(ctx)
         self.nonce_sequence(ctx)
         self.idle_library(ctx)
         self.cli_checks(ctx)
@@ -736,6 +739,77 @@ class C07(MiscProp):
 
     def recheck_stream(self, inp, rs):
         return all(r["outcome"] == "ok" for r in rs)
+
+    # ---------------------------------------------------------------- (a'): the half-injected ephemeral pair
+    def t2_half_injected_short_stream(self, ctx):
+        """Audit finding 11.  noise.rs::init_x keeps an injected ephemeral pair only when BOTH halves are given; with
+        one half (e = Some, epk = none, or the other way round) the library still draws 32 bytes.  (i) With an installed
+        stream that is too short the driver must refuse the case up front with the EXACT need (`outcome=rand_short
+        need=32` for noise_enc, 32 / 64 for key_enc with / without an injected payload key) and leave the stream
+        untouched; (ii) with exactly enough stream the given half is ignored: the ephemeral public key in the output
+        is the public key of the stream block, the stream is used up, and RunMisc.run_hist says the same."""
+        rng = ctx.rng
+        (s, spk), (r, rpk) = self.parties[0], self.parties[1]
+        e = ctx.rbytes(32)
+        epk = unhex(drv(ctx.bin, ["xpub %s" % hexs(e)])[0].get("out", "-"))
+        o_ = lambda b: "none" if b is None else hexs(b)
+        payload, pk, data = ctx.rbytes(32), ctx.rbytes(32), ctx.rbytes(5)
+
+        def line(kind, e_, epk_, pk_):
+            if kind == "noise_enc":
+                return "noise_enc %s %s %s %s %s %s %s" % (hexs(s), hexs(spk), hexs(rpk), o_(e_), o_(epk_), hexs(PROLOGUE), hexs(payload))
+            return "key_enc %s %s %s %s %s %s %s - - -" % (hexs(s), hexs(spk), hexs(rpk), o_(e_), o_(epk_), o_(pk_), hexs(data))
+        # (i) short streams: (kind, e, epk, pk, bytes needed)
+        shorts = [("noise_enc", e, None, None, 32), ("noise_enc", None, epk, None, 32), ("noise_enc", None, None, None, 32),
+                  ("key_enc", e, None, pk, 32), ("key_enc", None, epk, pk, 32), ("key_enc", e, None, None, 64),
+                  ("key_enc", e, epk, None, 32), ("key_enc", None, None, None, 64)]
+        for kind, e_, epk_, pk_, need in shorts:
+            for have in sorted(set([0, 1, 31, need - 1, need - 32 + 31])):
+                if have >= need:
+                    continue
+                stream = ctx.rbytes(have)
+                bodies = ["setrand %s" % (hexs(stream) if stream else "empty"), line(kind, e_, epk_, pk_), "randleft",
+                          "setrand none", "randleft"]
+                rs = drv(ctx.bin, bodies)
+                inp = {"driver": "libdrv", "oracle": None, "lines": bodies}
+                self.ran(ctx, "half-injected/short-stream")
+                self.count(ctx, "short-stream:%s%s%s" % (kind, "+e" if e_ else "", "+epk" if epk_ else ""))
+                self.check(ctx, rs[1].get("outcome") == "rand_short" and rs[1].get("need") == str(need) and rs[1].get("have") == str(have),
+                           inp, "the case is refused up front: outcome=rand_short need=%d have=%d (the library draws whenever NOT both "
+                                "halves of the ephemeral pair are given)" % (need, have), rs[1]["raw"][:200])
+                self.check(ctx, rs[2].get("n") == str(have), inp, "the refused case leaves the %d stream bytes untouched" % have, rs[2]["raw"][:100])
+                self.check(ctx, rs[4].get("n") == "none", inp, "the driver is alive afterwards and the stream can be removed", rs[4]["raw"][:100])
+        # (ii) exactly enough: the given half is ignored, the stream block becomes the ephemeral key
+        items, shows, inputs, impls = [], {}, {}, {}
+        exact = [("noise_enc", e, None, None), ("noise_enc", None, epk, None), ("key_enc", e, None, pk), ("key_enc", None, epk, None)]
+        for i, (kind, e_, epk_, pk_) in enumerate(exact):
+            need = 32 + (32 if kind == "key_enc" and pk_ is None else 0)
+            stream = ctx.rbytes(need)
+            fe = stream[need - 32:]
+            bodies = ["setrand %s" % hexs(stream), line(kind, e_, epk_, pk_), "randleft", "setrand none", "xpub %s" % hexs(fe)]
+            rs = drv(ctx.bin, bodies)
+            inp = {"driver": "libdrv", "oracle": "stream", "lines": bodies[:4]}
+            self.ran(ctx, "half-injected/exact-stream")
+            ob = obs_of(kind, rs[1])
+            off = 4 if kind == "key_enc" else 0
+            want = unhex(rs[4].get("out", "-"))
+            self.check(ctx, ob["code"] == 0, inp, "the operation succeeds with exactly %d stream bytes" % need, rs[1]["raw"][:200])
+            self.check(ctx, rs[2].get("n") == "0", inp, "all %d stream bytes are consumed" % need, rs[2]["raw"][:100])
+            self.check(ctx, ob["code"] == 0 and ob["out"][off:off + 32] == want and want != epk, inp,
+                       "the ephemeral public key written is the public key of the stream block (%s), not the injected half" % want.hex(),
+                       ob["out"][off:off + 32].hex())
+            if kind == "key_enc":
+                op = "HKeyEnc %s %s %s %s %s %s %s []" % (g_bytes(s), g_bytes(spk), g_bytes(rpk), g_opt(e_), g_opt(epk_), g_opt(pk_), g_bytes(data))
+            else:
+                op = "HNoiseEnc %s %s %s %s %s %s %s" % (g_bytes(s), g_bytes(spk), g_bytes(rpk), g_opt(e_), g_opt(epk_), g_bytes(PROLOGUE), g_bytes(payload))
+            left = rs[2].get("n") if (rs[2].get("n") or "").isdigit() else "999999"
+            mh = "run_hist [] %s [%s]" % (g_bytes(stream), op)
+            items.append((i, "chk_hist (%s) [(%s, %s)]" % (mh, g_obs(ob), left), 1))
+            shows[i] = "show_hist (%s)" % mh
+            inputs[i] = inp
+            impls[i] = [rs[1]["raw"][:300]]
+        res_m, log = coq_eval(ctx.pid + "x", items)
+        self.model_results(ctx, "half-injected", items, res_m, log, inputs, impls, shows)
 
     # ---------------------------------------------------------------- (c)
     def nonce_sequence(self, ctx):
